@@ -45,7 +45,21 @@ fn init_states() -> Vec<Vec<(&'static str, u128)>> {
     let mut s3 = base.clone();
     s3[0].1 = 0x7fff_ffff_8000_00ff;
     s3[1].1 = 0xffff_ffff_ffff_ffff;
-    vec![base, s1, s2, s3]
+    let mut s4 = base.clone();
+    s4[0].1 = 0xffff_ffff_ffff_ff00;
+    s4[1].1 = 0x0000_0000_8000_0000;
+    s4[2].1 = 0x8000_0000_0000_0000;
+    let mut s5 = base.clone();
+    s5[0].1 = 0x0000_0000_ffff_ffff;
+    s5[1].1 = 0x0000_0001_0000_0000;
+    s5[8].1 = 1;
+    s5[9].1 = 1;
+    s5[10].1 = 1;
+    if std::env::args().any(|a| a == "thorough") || std::env::var("VERIF_TIER").ok().as_deref() == Some("thorough") {
+        vec![base, s1, s2, s3, s4, s5]
+    } else {
+        vec![base, s1, s2, s3]
+    }
 }
 
 fn lift(raw: &pc::Project) -> Result<ir::Project, String> {
